@@ -16,7 +16,7 @@ LEVEL_NOTE = ("Trusted: the ~300-line ASGI stand-in for starlette and the stream
               "client and the real server code; virtual clock. Consecutive drops beyond max_reconnect_attempts are expected to end in ConnectionError.")
 DESIGN_REF = "§5 C17"
 RULE = "case = (event payloads, cursor, cut offsets); distinct = hash of the case; non-trivial = >=1 drop actually happened"
-REQUIRED_REACH = ["scenario", "drop_injected", "reconnected_ok", "cursor_mid_log", "unicode_payload", "cut_inside_data", "cut_inside_id", "over_limit_case"]
+REQUIRED_REACH = ["scenario", "drop_injected", "reconnected_ok", "cursor_mid_log", "unicode_payload", "cut_inside_data", "cut_inside_id", "over_limit_case", "slow_store"]
 ASSUMPTIONS = ["drops are cuts of the response body (httpx.ReadError); request-phase connect errors are not injected"]
 
 TEXTS = ["ok", "plain text", "ünï¢ödé ✓", "tab\tand \"quotes\"", "x" * 300, "line\\nescaped", "emoji 😀", "ls\u2028sep", "ps\u2029sep", "nel\u0085sep", "vt\x0bff\x0c", "a b", "c d", "e\u0085f", ""]
@@ -42,7 +42,8 @@ def gen_case(seed):
         pos = rnd.randint(0, len(cuts))
         cuts[pos:pos] = [-1] * k
     return {"seed": seed, "texts": texts, "gaps": gaps, "cursor": cursor, "cuts": cuts, "max_reconnect": rnd.choice([3, 3, 1, 5]),
-            "store": rnd.choice(["memory", "sqlite"]), "late_connect": rnd.choice([0, 0, 2, 50])}
+            "store": rnd.choice(["memory", "sqlite"]), "late_connect": rnd.choice([0, 0, 2, 50]),
+            "store_latency": rnd.choice([None, None, None, 0.02, 0.1])}
 
 
 def _max_consecutive_refusals(cuts):
@@ -89,7 +90,9 @@ def run_one(case, acc):
         fresh = basic.BasicRuntime()
         basic.basic_runtime = fresh
         srv.basic_runtime = fresh
-        store = sr.fault_store(case["store"], os.path.join(d, "c.db"), log=[])
+        store = sr.fault_store(case["store"], os.path.join(d, "c.db"), log=[], latency=case.get("store_latency"))
+        if case.get("store_latency"):
+            acc.hit("slow_store")
         server = WorkflowServer(workflow_store=store, idle_timeout=1000, sse_heartbeat_interval=None)
         wf = c17_wf.Streamer(timeout=None)
         server.add_workflow("wf", wf)
